@@ -982,6 +982,8 @@ class BuildManager:
         self.size_in_queue: int = 0
         # SCCs that have been fully processed.
         self.done_sccs: set[int] = set()
+        # Meta files whose write failed in this run (their meta_ex files must not be written).
+        self.failed_meta_writes: set[str] = set()
         # Parallel build workers, list is empty for in-process type-checking.
         self.workers: list[WorkerClient] = []
         # We track which workers are currently free in the coordinator process.
@@ -2410,8 +2412,8 @@ def write_cache(
     return interface_hash, (meta, meta_file)
 
 
-def write_cache_meta(meta: CacheMeta, manager: BuildManager, meta_file: str) -> None:
-    # Write meta cache file
+def write_cache_meta(meta: CacheMeta, manager: BuildManager, meta_file: str) -> bool:
+    """Write meta cache file. Return False (and remember the file) if the write failed."""
     metastore = manager.metastore
     if manager.options.fixed_format_cache:
         data_io = WriteBuffer()
@@ -2427,10 +2429,18 @@ def write_cache_meta(meta: CacheMeta, manager: BuildManager, meta_file: str) -> 
         # (see https://github.com/python/mypy/issues/3215).
         # The next run will simply find the cache entry out of date.
         manager.log(f"Error writing cache meta file {meta_file}")
+        manager.failed_meta_writes.add(meta_file)
+        return False
+    manager.failed_meta_writes.discard(meta_file)
+    return True
 
 
 def write_cache_meta_ex(meta_file: str, meta_ex: CacheMetaEx, manager: BuildManager) -> None:
     # Write errors cache file
+    if meta_file in manager.failed_meta_writes:
+        # The meta file on disk is still the previous one (or missing): a new meta_ex file
+        # next to it would be trusted together with it by the next run.
+        return
     meta_ex_file = get_meta_ex_name(meta_file)
     metastore = manager.metastore
     if manager.options.fixed_format_cache:
